@@ -129,10 +129,29 @@ def sqrtm(M):
     return tree_map(jnp.vectorize(_sqrtm, signature=sig), M)
 
 
+@jax.custom_jvp
 def _logm(M):
     v, U = jnp.linalg.eigh(M)
     vlog = jnp.log(v)
     return U @ (vlog[:, jnp.newaxis] * U.T)
+
+
+@_logm.defjvp
+def _logm_jvp(M, dM):
+    # Note: Only stable 1st derivative! Differentiating through `eigh` yields
+    # NaNs for degenerate eigenvalues (e.g. at the identity).
+    M, dM = M[0], dM[0]
+    v, U = jnp.linalg.eigh(M)
+
+    dM = U.T @ dM @ U
+    # first divided differences of log: log(v_i / v_j) / (v_i - v_j)
+    x = (v[:, jnp.newaxis] - v[jnp.newaxis, :]) / v[jnp.newaxis, :]
+    same = x == 0.0
+    dd = jax.lax.select(
+        same, jnp.ones_like(x), jnp.log1p(x) / jax.lax.select(same, jnp.ones_like(x), x)
+    )
+    dres = dM * dd / v[jnp.newaxis, :]
+    return U @ (jnp.log(v)[:, jnp.newaxis] * U.T), U @ dres @ U.T
 
 
 def logm(M):
